@@ -506,6 +506,7 @@ pub fn run(args: &[String]) -> i32 {
     let mut all_hashes: HashSet<u64> = HashSet::new();
     let mut violations: Vec<(CaseFile, PathBuf, Vec<String>)> = Vec::new();
     let mut known_hits: Vec<String> = Vec::new();
+    let mut skipped_ref_hang: Vec<u64> = Vec::new();
     let mut first = 0u64;
     let mut rounds = 0;
     while first < total {
@@ -560,6 +561,14 @@ pub fn run(args: &[String]) -> i32 {
             Some(raw) => {
                 // an abort/no-progress verdict must reproduce in a fresh process before it is believed
                 if raw.class == "abort" || raw.class == "no-progress" {
+                    // ... and it must not be the *sequential* reference that does not terminate (another property)
+                    let rr = probe(&dir, &raw, "ref", &[], Duration::from_secs(90));
+                    if !matches!(rr, ProbeResult::Done(_)) {
+                        println!("run {}: the sequential API itself does not terminate on this workload; skipped (not C15)", raw.run);
+                        skipped_ref_hang.push(raw.run);
+                        first = raw.run + 1;
+                        continue;
+                    }
                     let r = probe(&dir, &raw, "spec", &[], Duration::from_secs(STALL_SECS));
                     let c = probe_class(&r);
                     if c == "ok" {
@@ -567,7 +576,27 @@ pub fn run(args: &[String]) -> i32 {
                     }
                 }
                 println!("failure at run {} class={} : minimising ...", raw.run, raw.class);
-                let (case, log) = minimise(&dir, &raw);
+                let (case, mut log) = minimise(&dir, &raw);
+                // a stall under simulation can be an artefact of real std primitives reached through full
+                // paths (they block the coroutine's OS thread): confirm on the un-hooked code under Miri
+                if (case.class == "abort" || case.class == "no-progress") && case.workload.days <= 12 {
+                    if let (Some(w), Some(tool)) = (case.workload.workers, arg_val(args, "--miri-tool")) {
+                        let st = Command::new("python3")
+                            .args([tool.as_str(), "confirm", &w.to_string(), &case.workload.days.to_string(), &case.workload.thr.to_string()])
+                            .stdout(Stdio::null())
+                            .stderr(Stdio::null())
+                            .status();
+                        match st.ok().and_then(|s| s.code()) {
+                            Some(0) => {
+                                let _ = std::fs::remove_dir_all(&dir);
+                                die(&format!("run {}: stall under simulation (workers={w} days={} thr={}) is not confirmed by the un-hooked code under Miri, which completes correctly: simulator artefact, not reported as a violation", raw.run, case.workload.days, case.workload.thr));
+                            }
+                            Some(1) => log.push("confirmed on un-hooked code under Miri: fails there too".into()),
+                            Some(3) => log.push("confirmed on un-hooked code under Miri: does not finish there either".into()),
+                            _ => log.push("Miri confirmation unavailable".into()),
+                        }
+                    }
+                }
                 if let Some(k) = known.findings.iter().find(|k| matches_known(k, &case)) {
                     let line = format!("KNOWN-FINDING: property=C15 {}", k.what);
                     if !known_hits.contains(&line) {
@@ -717,6 +746,7 @@ pub fn run(args: &[String]) -> i32 {
             "samples": samples,
             "workloads": all_lines.len(),
             "workloads_skipped_reference_panicked": skipped,
+            "workloads_skipped_sequential_api_does_not_terminate": skipped_ref_hang,
             "runs_per_hour": (all_lines.len() as f64 / wall * 3600.0) as u64,
             "schedules_per_hour": (executions as f64 / wall * 3600.0) as u64,
             "scheduler_steps": steps,
